@@ -175,6 +175,8 @@ func checkC05(c *Ctx, p *Prog, r *Result) {
 		return fn
 	}
 
+	clearUseRule(p, r, "C05.no-use-after-clear", []string{modulePath, modulePath + "/kex", modulePath + "/cose", modulePath + "/http"}, 15)
+
 	// (1)+(2) server side
 	if root := get("fdo/http.Handler.ServeHTTP"); root != nil {
 		f := NewFlow(p, rs, []*ssa.Function{root}, nil)
@@ -278,6 +280,33 @@ func checkC05(c *Ctx, p *Prog, r *Result) {
 			m := f.matcherFor(root)
 			ok := len(args) >= 3 && m.Prov(args[2]).Has("field:fdo/kex.SessionCrypter.SEK") && m.Prov(args[1]).Has("field:fdo/kex.CipherSuite.EncryptAlg")
 			r.table(p, "C05.authenticated-before-decrypt", "key/alg of "+siteKey(p, call), p.instrPos(call), ok, "alg from the session's cipher suite, key = SEK")
+		}
+	}
+
+	// (4b) the recomputed tag never shares storage with the received one
+	if dg := get("fdo/cose.Mac0.Digest"); dg != nil {
+		r.rule("C05.recomputed-tag-fresh", "every value Mac0.Digest stores into the tag field is the result of Sum(nil) — a fresh buffer — so the received tag a caller saved before calling Digest cannot be overwritten by the recomputation (the comparison would compare the tag with itself)")
+		r.floor("C05.recomputed-tag-fresh", 1)
+		for _, b := range dg.Blocks {
+			for _, in := range b.Instrs {
+				st, ok := in.(*ssa.Store)
+				if !ok {
+					continue
+				}
+				fa, ok := st.Addr.(*ssa.FieldAddr)
+				if !ok || fieldName(fa.X.Type(), fa.Field) != "fdo/cose.Mac0.Value" {
+					continue
+				}
+				okv, detail := false, "stored value is not the result of a Sum call"
+				if call, ok := st.Val.(*ssa.Call); ok && call.Common().IsInvoke() && call.Common().Method.Name() == "Sum" && len(call.Common().Args) == 1 {
+					if c, isC := call.Common().Args[0].(*ssa.Const); isC && c.IsNil() {
+						okv, detail = true, "Sum(nil): fresh buffer"
+					} else {
+						detail = "Sum appends to an existing buffer (" + call.Common().Args[0].String() + "): may alias the received tag"
+					}
+				}
+				r.table(p, "C05.recomputed-tag-fresh", "store to Mac0.Value in "+p.FuncName(dg), p.instrPos(in), okv, detail)
+			}
 		}
 	}
 
